@@ -32,6 +32,10 @@ for prop in sys.argv[2:]:
         head = subprocess.run(["git", "-C", "/repo", "rev-parse", "HEAD"], capture_output=True, text=True).stdout.strip()
         subprocess.run(["git", "-C", E, "checkout", "-q", "--detach", head], check=True)
         subprocess.run(["git", "-C", E, "checkout", "-q", "--", "."], check=True)
+        # a change written against an older tree is stored as patch.original.diff; patch.diff is its rebase onto HEAD
+        if os.path.exists(os.path.join(dst, "patch.rebased.diff")):
+            os.rename(os.path.join(dst, "patch.diff"), os.path.join(dst, "patch.original.diff"))
+            os.rename(os.path.join(dst, "patch.rebased.diff"), os.path.join(dst, "patch.diff"))
         subprocess.run(["git", "-C", E, "apply", os.path.join(dst, "patch.diff")], check=True)
         t0 = time.time()
         r = subprocess.run(["./check", prop, "--tier", "quick"], cwd=VERIF, capture_output=True, text=True, env=dict(os.environ, VERIF_REPO=E))
